@@ -57,9 +57,9 @@ GateHooks  == {"before_start", "before_spawn", "after_spawn", "after_start"}
 
 NoCtx == [on |-> FALSE, cid |-> "", cmd |-> "", lname |-> "", hasname |-> FALSE, pattern |-> FALSE, pid |-> -1, signum |-> -1,
           children |-> FALSE, recursive |-> FALSE, childpid |-> -1, G |-> -1, nostop |-> FALSE,
-          graceful |-> TRUE, seq |-> FALSE, cast |-> FALSE, waiting |-> FALSE, busy |-> FALSE, file |-> <<>>, arbchg |-> FALSE, setnp |-> -99]
+          graceful |-> TRUE, seq |-> FALSE, cast |-> FALSE, waiting |-> FALSE, busy |-> FALSE, file |-> <<>>, arbchg |-> FALSE, setnp |-> -99, matches |-> {}]
 NoOp  == [slot |-> "", cmd |-> "", lname |-> "", hasname |-> FALSE, pattern |-> FALSE, mark |-> 0, t0 |-> 0, faulty |-> FALSE,
-          gatefail |-> {}, nostop |-> FALSE, graceful |-> TRUE, seq |-> FALSE]
+          gatefail |-> {}, nostop |-> FALSE, graceful |-> TRUE, seq |-> FALSE, matches |-> {}]
 NoTerm == [open |-> FALSE, sig |-> 0, t0 |-> 0, G |-> 0, killed |-> FALSE, kids |-> {}]
 
 GhostInit ==
@@ -185,7 +185,8 @@ Upd(g, o, ln, o2) ==
                                childpid |-> ln.q.childpid, G |-> ln.q.G, nostop |-> ln.q.nostop,
                                graceful |-> ln.q.graceful, seq |-> ln.q.sequential, cast |-> ln.q.cast, waiting |-> ln.q.waiting,
                                busy |-> o2.slot # "", file |-> ln.q.file,
-                               arbchg |-> ("arbchg" \in DOMAIN ln.q /\ ln.q.arbchg), setnp |-> ln.q.setnp]
+                               arbchg |-> ("arbchg" \in DOMAIN ln.q /\ ln.q.arbchg), setnp |-> ln.q.setnp,
+                               matches |-> IF "matches" \in DOMAIN ln.q THEN SeqToSet(ln.q.matches) ELSE {}]
                 ELSE IF ln.cb = 0 \/ ln.k = "reqend" THEN NoCtx ELSE g.ctx
       reqs1  == IF isReq
                 THEN Append(g.reqs, [cid |-> ln.x, mid |-> ln.q.mid, cast |-> ln.q.cast, n |-> 0, t0 |-> ln.t,
@@ -204,7 +205,8 @@ Upd(g, o, ln, o2) ==
                              mark |-> NK(o), t0 |-> ln.t,
                              faulty |-> FALSE, gatefail |-> {},
                              nostop |-> g.ctx.on /\ g.ctx.nostop, graceful |-> ~g.ctx.on \/ g.ctx.graceful,
-                             seq |-> g.ctx.on /\ g.ctx.seq]
+                             seq |-> g.ctx.on /\ g.ctx.seq,
+                             matches |-> IF g.ctx.on THEN g.ctx.matches ELSE {}]
                 ELSE IF rel THEN NoOp
                 ELSE [g.op EXCEPT !.faulty = @ \/ ln.k \in {"spawnfail", "exc", "block"}
                                               \/ (ln.k = "hook" /\ ln.r # "true"),
@@ -425,6 +427,8 @@ C02_stays(g, o, ln, o2) ==
         \* ... taken by a request that is one of those (a `set` that gets hold of the reload slot is not)
         /\ g.op.cmd \in {"start", "restart", "reload", "add", "reloadconfig", "internal"}
         /\ (o2.slot \in WatcherSlots /\ g.op.hasname /\ ~g.op.pattern => g.op.lname = o2.w[i].ln)
+        \* ... and a pattern reaches the watchers it matches, no others
+        /\ (g.op.hasname /\ g.op.pattern /\ g.op.cmd \in {"start", "restart"} => o2.w[i].ln \in g.op.matches)
    /\ (ln.k = "spawn" => \A j \in WIdx(o2) : o2.w[j].ln = ln.x => o2.w[j].st # "stopped")
 
 \* ---------------- C03
